@@ -134,10 +134,22 @@ def raise_signature(M, exc):
                         return r
                 return None
             chain = find(fn.node, []) or []
+            tests = list(chain[-1:])
+            skip_ids = set()
+            # a guard extracted into a helper (self._ledger.predates(dt), self._is_stale(dt)): what the helper's own body reads is what the guard reads
             for t in chain[-1:]:
+                for c_ in ast.walk(t):
+                    if isinstance(c_, ast.Call) and isinstance(c_.func, ast.Attribute):
+                        tg_ = [g_ for g_ in M.cha(c_.func.attr) if not g_.is_property] if hasattr(M, 'cha') else []
+                        if len(tg_) == 1 and len(list(ast.walk(tg_[0].node))) < 120:
+                            skip_ids.update(id(y_) for y_ in ast.walk(c_.func.value))        # the helper's holder (self._ledger) is not what the guard compares
+                            tests.extend(r_.value for r_ in ast.walk(tg_[0].node) if isinstance(r_, ast.Return) and r_.value is not None)
+                            tests.extend(i_.test for i_ in ast.walk(tg_[0].node) if isinstance(i_, ast.If))
+            helper_leaves = set()
+            for t in tests:
                 for x in ast.walk(t):
                     # state fields read by the guard, module-level names and literal constants: stable under renaming of locals/parameters
-                    if isinstance(x, ast.Attribute) and isinstance(x.value, ast.Name) and x.value.id in ('self', 'np', 'numpy', 'math', 'settings'):
+                    if isinstance(x, ast.Attribute) and isinstance(x.value, ast.Name) and x.value.id in ('self', 'np', 'numpy', 'math', 'settings') and id(x) not in skip_ids:
                         leaves.add(x.attr)
                     elif isinstance(x, ast.Constant) and isinstance(x.value, (int, float)) and not isinstance(x.value, bool):
                         leaves.add('const:%g' % x.value)
